@@ -131,13 +131,38 @@ def _bounded(tree):
     out += _list_def("randomChoiceTests", tests, "the `if`/`elif` conditions of random_choice, in order")
 
     # ---------------------------------------------------------------- datetime normalisation
+    def _tz_calls(fn):
+        kinds = []
+        for n in ast.walk(fn):
+            if isinstance(n, ast.Call) and isinstance(n.func, ast.Attribute) and n.func.attr in ("replace", "astimezone"):
+                kinds.append(n.func.attr + "(" + ", ".join(
+                    [ast.unparse(a) for a in n.args] + [f"{k.arg}={ast.unparse(k.value)}" for k in n.keywords]) + ")")
+        return kinds
+
     f = find_func(tree, "parse_datetimespec")
-    kinds = []
+    # string inputs are delegated to module-level helpers (885750c): follow the delegation one level
+    helpers = []
     for n in ast.walk(f):
-        if isinstance(n, ast.Call) and isinstance(n.func, ast.Attribute) and n.func.attr in ("replace", "astimezone"):
-            kinds.append(n.func.attr + "(" + ", ".join(
-                [ast.unparse(a) for a in n.args] + [f"{k.arg}={ast.unparse(k.value)}" for k in n.keywords]) + ")")
-    out += _list_def("parseSpecTzCalls", kinds, "zone-attaching calls in parse_datetimespec")
+        if isinstance(n, ast.Return) and isinstance(n.value, ast.Call) and isinstance(n.value.func, ast.Name) \
+                and n.value.func.id.startswith("_parse_"):
+            helpers.append(n.value.func.id)
+    kinds = _tz_calls(f)
+    for h in helpers:
+        kinds += [h + ": " + k for k in _tz_calls(find_func(tree, h))]
+    out += _list_def("parseSpecTzCalls", kinds,
+                     "zone-attaching calls in parse_datetimespec and in the string helper it delegates to")
+    out += _list_def("parseSpecDelegates", [ast.unparse(n.value) for n in ast.walk(f)
+                                            if isinstance(n, ast.Return) and isinstance(n.value, ast.Call)
+                                            and isinstance(n.value.func, ast.Name)],
+                     "calls parse_datetimespec returns directly")
+    # which module-level parsers are lru_cached (D39: only string parsing may be cached, because aware
+    # datetimes compare by instant)
+    cached = []
+    for n in tree.body:
+        if isinstance(n, ast.FunctionDef) and any("lru_cache" in ast.unparse(d) for d in n.decorator_list):
+            cached.append(n.name + "(" + ", ".join(
+                a.arg + (": " + ast.unparse(a.annotation) if a.annotation else "") for a in n.args.args) + ")")
+    out += _list_def("cachedParsers", cached, "module-level functions of template_funcs decorated with lru_cache")
     f = find_func(funcs, "datetime")
     def _zone_call(stmt):
         if isinstance(stmt, ast.Assign) and len(stmt.targets) == 1 and ast.unparse(stmt.targets[0]) == "dt":
@@ -174,8 +199,23 @@ def _bounded(tree):
     out += _list_def("datetimeBetweenBody", [ast.unparse(s).replace("\n", " ; ") for s in body],
                      "statements of datetime_between")
     ifs = [s for s in body if isinstance(s, ast.If)]
-    if len(ifs) != 2:
-        raise PinError(f"datetime_between: expected the order check and the equal-bounds check, found {len(ifs)} ifs")
+    if len(ifs) != 3:
+        raise PinError(f"datetime_between: expected the order check, the equal-bounds check and the clamp's zone "
+                       f"switch, found {len(ifs)} ifs")
+    # the clamp (919a3ea): value = <faker call>; earliest = start in the result's zone; return max(value, earliest)
+    z = ifs[2]
+    earliest = []
+    for branch in (z.body, z.orelse):
+        if len(branch) != 1 or not isinstance(branch[0], ast.Assign) or ast.unparse(branch[0].targets[0]) != "earliest":
+            raise PinError("datetime_between: the clamp no longer assigns `earliest` in both branches")
+        earliest.append(ast.unparse(branch[0].value))
+    out += _list_def("clampEarliest", earliest, "`earliest` for an aware / a naive result")
+    last = body[-1]
+    if not isinstance(last, ast.Return):
+        raise PinError("datetime_between no longer ends with a return")
+    out += _str_def("clampReturn", ast.unparse(last.value), "what datetime_between returns after the draw")
+    vals = [s for s in body if isinstance(s, ast.Assign) and ast.unparse(s.targets[0]) == "value"]
+    out += _str_def("clampValue", ast.unparse(_only(vals, "assignment to `value`").value), "the Faker call")
     i = ifs[0]
     if i.orelse or len(i.body) != 1 or not isinstance(i.body[0], ast.Raise):
         raise PinError("datetime_between: the order check is no longer `if …: raise …`")
